@@ -75,20 +75,39 @@ import (
 //     A share group Close runs the final ShareAcknowledge per source (in
 //     parallel) and the leaving ShareGroupHeartbeat, possibly after an ack
 //     flush already in flight: the same three-chain bound is used.
+//   - a JoinGroup or SyncGroup that is in flight when Close is called is NOT
+//     cancelled by leaving: joinAndSync deliberately issues both with the
+//     client context, not the group context (consumer_group.go, "NOTE: For
+//     this function, we have to use the client context ..."), and the leave
+//     waits for the manage goroutine. If that request's connection is stalled
+//     the wait lasts until the request layer gives up: retry timeout for
+//     Join/Sync = SessionTimeout (40 s here), evaluated after an attempt whose
+//     read deadline is RebalanceTimeout (20 s here) + RequestTimeoutOverhead
+//     for JoinGroup, the stashed RebalanceTimeout for SyncGroup
+//     (client.go connTimeouter), plus the handshake of the fresh connection:
+//     joinChain = 40 s + 20 s + 2 x 1 s. (Replay of the thorough artefacts
+//     "stall:c/b1/group#0:SyncGroup": the stalled SyncGroup is read for
+//     exactly 20 s and retried once.)
+//   - with BlockRebalanceOnPoll the manage goroutine additionally waits for the
+//     application to allow the rebalance; the application may be inside one
+//     more call that the request layer bounds (a commit: one more chain).
 //   - then one second to kill fetch sessions and one second for the final
 //     client-metrics push (client.go close).
 //
 // A generous 30 virtual seconds are added on top of the sum.
 const (
-	retryTimeout = 30 * time.Second
-	reqTimeout   = 1 * time.Second
-	chain        = retryTimeout + 3*reqTimeout
-	sessKill     = 1 * time.Second
-	metricsQuit  = 1 * time.Second
-	slack        = 30 * time.Second
+	retryTimeout     = 30 * time.Second
+	reqTimeout       = 1 * time.Second
+	chain            = retryTimeout + 3*reqTimeout
+	sessionTimeout   = 40 * time.Second // kgo.SessionTimeout of every group scenario
+	rebalanceTimeout = 20 * time.Second // kgo.RebalanceTimeout of every group scenario
+	joinChain        = sessionTimeout + rebalanceTimeout + 2*reqTimeout
+	sessKill         = 1 * time.Second
+	metricsQuit      = 1 * time.Second
+	slack            = 30 * time.Second
 
 	boundPlain = sessKill + metricsQuit + slack
-	boundGroup = 3*chain + sessKill + metricsQuit + slack
+	boundGroup = joinChain + 4*chain + sessKill + metricsQuit + slack
 )
 
 type mode int
@@ -640,8 +659,8 @@ func groupWorkload(name string, block bool, n int, variant string) *workload {
 				kgo.ConsumeResetOffset(kgo.NewOffset().AtStart()),
 				kgo.FetchMaxWait(500 * time.Millisecond),
 				kgo.HeartbeatInterval(time.Second),
-				kgo.SessionTimeout(40 * time.Second),
-				kgo.RebalanceTimeout(20 * time.Second),
+				kgo.SessionTimeout(sessionTimeout),
+				kgo.RebalanceTimeout(rebalanceTimeout),
 				// Autocommit stays enabled (no periodic commit inside the run):
 				// leaving the group commits in OnPartitionsRevoked.
 				kgo.AutoCommitInterval(10 * time.Minute),
